@@ -178,11 +178,15 @@ type Step struct {
 	Seats   []int
 	SubSize int
 	Subnet  int
-	Cond    map[string]bool // truth value of every cache-independent condition of the topic's table
-	Key     map[string][]string
-	Now     time.Duration
-	Bad     []common.Root // roots the node regards as bad blocks while this message is validated
-	Run     func(b *Backend) gossipval.GossipValidatorResult
+	// voluntary exits: what the signature domain rule depends on (epochs, fork versions as small integers) and how
+	// the message was really signed; the trace spec recomputes the signature condition from the rule
+	// "head epoch >= DENEB_FORK_EPOCH: capella version (EIP-7044), else get_domain(state, ., exit.epoch)"
+	Xdom map[string]int
+	Cond map[string]bool // truth value of every cache-independent condition of the topic's table
+	Key  map[string][]string
+	Now  time.Duration
+	Bad  []common.Root // roots the node regards as bad blocks while this message is validated
+	Run  func(b *Backend) gossipval.GossipValidatorResult
 }
 
 // History is a sequence of steps sharing seen-caches (starting empty).
@@ -206,6 +210,7 @@ type Event struct {
 	Seats   []int               `json:"seats"`
 	SubSize int                 `json:"subsize"`
 	Subnet  int                 `json:"subnet"`
+	Xdom    map[string]int      `json:"xdom"`
 	Cond    map[string]int      `json:"cond"`
 	Key     map[string][]string `json:"key"`
 	Pre     map[string]int      `json:"pre"`
@@ -227,14 +232,17 @@ func b2i(b bool) int {
 // runHistory executes a history on fresh caches and returns its events (first one: Reset).
 func runHistory(v *View, h *History, hi int) []Event {
 	out := []Event{{Ev: "Reset", H: hi, Scen: h.Scen, Name: h.Name, Cond: map[string]int{"_": 0},
-		Key: map[string][]string{"_": {}}, Pre: map[string]int{"_": 0}, Marks: [][2]string{}, Seens: [][2]string{}, Seats: []int{}, Out: "ok"}}
+		Key: map[string][]string{"_": {}}, Pre: map[string]int{"_": 0}, Marks: [][2]string{}, Seens: [][2]string{}, Seats: []int{}, Xdom: map[string]int{"_": 0}, Out: "ok"}}
 	b := NewBackend(v)
 	for i, st := range h.Steps {
 		ev := Event{Ev: "Msg", H: hi, I: i, Scen: h.Scen, Name: h.Name, Topic: st.Topic, Desc: st.Desc, Variant: st.Variant, Bnd: bndOf(st),
-			Seats: append([]int{}, st.Seats...), SubSize: st.SubSize, Subnet: st.Subnet,
+			Seats: append([]int{}, st.Seats...), SubSize: st.SubSize, Subnet: st.Subnet, Xdom: st.Xdom,
 			Cond: map[string]int{}, Key: map[string][]string{}, Pre: map[string]int{}, NowMs: int(st.Now / time.Millisecond)}
 		for k, x := range st.Cond {
 			ev.Cond[k] = b2i(x)
+		}
+		if ev.Xdom == nil {
+			ev.Xdom = map[string]int{"_": 0}
 		}
 		for c, ks := range st.Key {
 			ks = append([]string{}, ks...)
